@@ -138,10 +138,19 @@ def _history(draw, tier):
     for _ in range(n_ops):
         kind = draw(st.sampled_from(["gen", "gen", "gen", "gen", "gen",
                                      "skip", "skip", "skip", "shape",
-                                     "gen1"]))
+                                     "gen1", "spawn"]))
         if kind == "shape":
             if draw(st.integers(0, 2)) != 0:      # keep shape ops rare (~3%)
                 kind = "gen"
+        if kind == "spawn":
+            if draw(st.integers(0, 1)) != 0:
+                kind = "gen"
+            else:
+                # continue with the generator that the running one hands out
+                # as 'similar' (a new generator: it starts at sample 0)
+                ops.append(["spawn"])
+                pos = 1
+                continue
         if kind == "skip":
             room = POS_CAP - pos
             cls = draw(st.sampled_from(["small", "small", "medium", "large"]))
@@ -397,6 +406,31 @@ def _check_hist(case, ctx):
             n_skip += 1
             pending_skip = True
             open_stretch = None
+        elif op[0] == "spawn":
+            tags = _tags(case, 0, 1, "spawn")
+            # the new generator draws its phases from numpy's global RNG
+            np.random.seed(int(case["seed"]) % (2 ** 32))
+            parent = g
+            g = _call(lambda: parent.get_similar_fading_generator(), tags)
+            if not isinstance(g, JakesSampleGenerator) or g is parent:
+                raise Violation("spawn_type", "get_similar_fading_generator "
+                                "returned %r" % (g,), tags)
+            if g.shape != parent.shape:
+                raise Violation("spawn_shape", "similar generator has shape "
+                                "%r, the parent %r" % (g.shape, parent.shape),
+                                tags)
+            phi, psi = observe(g, cur_shape, tags)
+            state.clear()
+            state.update(generated=1, ops=1)
+            # like any new generator it has emitted sample number 0
+            _check_block(case, ctx, g, g.get_samples(), cur_shape, 0, 1, phi,
+                         psi, state, "spawn")
+            pos = 1
+            pending_skip = False
+            gens_since_skip = None
+            open_stretch = None
+            ctx.label("spawned_from_running_parent" if n_gen or n_skip
+                      else "spawned_from_fresh_parent")
         elif op[0] == "shape":
             new = op[1]
             tags = _tags(case, pos, 1, "shape")
